@@ -35,7 +35,7 @@ try:
         open(os.path.join(d, "subject.txt"), "w").write(subj + "\n")
         json.dump({"property": f[0].get("regression_property", f[0]["property"]), "also": [], "note": f[0].get("note", ""), "needs": "revert of " + subj,
                    "origin": "git revert of a fix: commit in /repo (regression seed, no separate demonstration: the finding in known_findings.json is the demonstration)",
-                   "finding_key": f[0]["key"]}, open(os.path.join(d, "meta.json"), "w"), indent=1)
+                   "finding_key": f[0]["key"], "masked_by": f[0].get("masked_by", ""), "masked_note": f[0].get("masked_note", "")}, open(os.path.join(d, "meta.json"), "w"), indent=1)
         print("ok   %s %s" % (c, subj))
 finally:
     sh("git", "-C", "/repo", "worktree", "remove", "--force", wt)
